@@ -481,7 +481,7 @@ def run(tier, seed, model_ok, translator, search=False):
                          key="impure:" + bad[0].split(": ")[-1])
         except Exception as e:  # noqa: BLE001
             impl = {"exc": type(e).__name__}
-        out.case(case, nontrivial=True)
+        add_case(out, case, case["v"], True)
         out.count("a:" + ("exc:" + impl["exc"] if "exc" in impl else "ok"))
         if "unmodelled" not in json.dumps(pv):
             model({"op": "to_json", "v": pv}, case, impl, "to_json_serializable")
@@ -506,9 +506,15 @@ def run(tier, seed, model_ok, translator, search=False):
     for i in range(n_d):
         spec = gen_spec(rng)
         t = build_table(rng, spec)
-        with warnings.catch_warnings():
-            warnings.simplefilter("ignore")
-            j = table_to_json_data(t)
+        try:
+            with warnings.catch_warnings():
+                warnings.simplefilter("ignore")
+                j = table_to_json_data(t)
+            if impure_leaves(j):
+                raise TypeError("impure JsonData")
+        except Exception:  # noqa: BLE001 — judged by stream (b); here a clean JsonData is rebuilt from the generator
+            j = {"name": spec["name"], "destinations": {d: None for d in spec["dests"]},
+                 "columns": {nm: {"unit": unit, "values": expected_leaves(kind, vals)} for nm, unit, kind, vals in spec["cols"]}}
         j2, how = mutate_json(rng, j)
         case = {"seed": seed, "stream": "d", "index": i, "how": how, "j": jv(j2)}
         try:
@@ -518,7 +524,7 @@ def run(tier, seed, model_ok, translator, search=False):
             impl = {"ok": rc.canon_table(t2)}
         except Exception as e:  # noqa: BLE001
             impl = {"exc": type(e).__name__}
-        out.evaluations += 1
+        add_case(out, case, case["j"], how != "none")
         out.count("d:" + how + ":" + ("exc:" + impl["exc"] if "exc" in impl else "ok"))
         model(to_table_op(j2), case, impl, "json_data_to_table(malformed)")
 
@@ -536,11 +542,21 @@ def run(tier, seed, model_ok, translator, search=False):
     return out
 
 
+def add_case(out, case, key, nontrivial):
+    """count a case; distinct non-trivial cases are keyed by content (never by seed / index)"""
+    import hashlib
+    out.evaluations += 1
+    if nontrivial:
+        out.nontrivial.add(hashlib.sha1(json.dumps(key, sort_keys=True, default=str).encode()).hexdigest())
+    if len(out.samples) < 4:
+        out.samples.append(case)
+
+
 def run_table_case(out, rng, spec, case, model):
     from pdtable.io.json import table_to_json_data, json_data_to_table
     t = build_table(rng, spec)
     nontrivial = bool(spec["cols"]) and bool(spec["cols"][0][3])
-    out.case(case, nontrivial=nontrivial)
+    add_case(out, case, case.get("table"), nontrivial)
     kinds = [c[2] for c in spec["cols"]]
     for k in kinds:
         out.count("b:kind:" + k)
@@ -645,12 +661,16 @@ def run_grid_case(out, grid, info, case, model, via_blocks):
         out.count("c:not well formed:" + type(e).__name__)
         return
     nontrivial = bool(info["kinds"]) and info["n_row"] > 0
-    out.case(case, nontrivial=nontrivial)
+    add_case(out, case, [case.get("cells"), via_blocks], nontrivial)
     out.count("c:" + ("parse_blocks" if via_blocks else "make_table_json_data"))
     out.count("c:orientation:" + ("transposed" if info["transposed"] else "rowwise"))
     if not via_blocks:
         model(dict(rc.model_op("json_of_precursor", grid, "strict")), case, {"ok": jv(j)}, "make_table_json_data")
-    cv = col_values(t)
+    try:
+        cv = col_values(t)
+    except Exception as e:  # noqa: BLE001
+        out.fail("reader table cannot be inspected", case, type(e).__name__, None, key="inspect:" + type(e).__name__)
+        return
     infinite = any(k == "num" and any(math.isinf(x) for x in v) for k, v in cv)
     has_nat = any(k == "dt" and "NaT" in v for k, v in cv)
     tz = any(k == "dt" and any(len(x) > 19 and ("+" in x[19:] or "-" in x[19:]) for x in v) for k, v in cv)
